@@ -3,6 +3,9 @@
 // observable is `include_paths` as the preprocessor sees it when cc1() reads its first file.
 // Expected (C10 / GCC documentation): -I directories in command-line order, then the system
 // directories, then the -idirafter directories in command-line order.
+static int captured;
+// in cbmc mode exit() ends the path: an exit before cc1 read its first file must fail HERE
+#define VERIF_ON_EXIT(code) VASSERT(captured, "the driver reaches cc1's first file without a diagnostic")
 #include "common.h"
 #ifndef NATIVE
 #define TRY(stmt) do { stmt; } while (0)
@@ -51,7 +54,6 @@ static char *verif_format(char *fmt, ...) {
 #include "main.c"
 #undef main
 
-static int captured;
 static const char *const *expect;
 noreturn void error(char *fmt, ...) { verif_exit(1); }
 void init_macros(void) {}
